@@ -87,3 +87,14 @@ func TestTokenizeCoversSource(t *testing.T) {
 		}
 	}
 }
+
+func TestDecorateNeverPanics(t *testing.T) {
+	r := rand.New(rand.NewSource(9))
+	for i := 0; i < 20000; i++ {
+		b := RandomBytes(r, 40)
+		Decorate(r, b, i%2 == 0)
+		Decorate(r, []byte("/*"), false)
+		Decorate(r, []byte("{#"), true)
+		Decorate(r, []byte("//"), false)
+	}
+}
